@@ -28,9 +28,32 @@ import (
 	"strings"
 )
 
+// genFail: a generator does not recognise the shape of the source it slices.  Only THAT generator's product is
+// missing then (reported on stderr and in <outdir>/FAILED.txt); the harness files that need it no longer compile,
+// which lib/runner.py reports for the properties that use them only (property-minimal builds).
+type genFail struct{ msg string }
+
 func die(format string, a ...interface{}) {
-	fmt.Fprintf(os.Stderr, "overlaygen: "+format+"\n", a...)
-	os.Exit(1)
+	panic(genFail{fmt.Sprintf(format, a...)})
+}
+
+var failedGens []string
+
+// run one generator; false if it gave up
+func run(name string, f func()) (ok bool) {
+	defer func() {
+		if r := recover(); r != nil {
+			gf, isFail := r.(genFail)
+			if !isFail {
+				panic(r)
+			}
+			fmt.Fprintf(os.Stderr, "overlaygen: generator %s failed: %s\n", name, gf.msg)
+			failedGens = append(failedGens, name+": "+gf.msg)
+			ok = false
+		}
+	}()
+	f()
+	return true
 }
 
 type file struct {
@@ -267,54 +290,70 @@ func main() {
 		die("usage: overlaygen <repo> <outdir>")
 	}
 	repo, out := os.Args[1], os.Args[2]
+	var x *file
 	rel := "pkg/segment/tracing/handler"
-	path := filepath.Join(repo, rel, "tracehandler.go")
-	src, err := os.ReadFile(path)
-	if err != nil {
-		die("%v", err)
-	}
-	x := &file{src: src, fset: token.NewFileSet()}
-	x.f, err = parser.ParseFile(x.fset, path, src, parser.ParseComments)
-	if err != nil {
-		die("%v", err)
-	}
-	body := depFold(x) + "\n" + redFold(x)
-	// imports of the original file that the copied text refers to
-	var imps []string
-	for _, im := range x.f.Imports {
-		p, _ := strconv.Unquote(im.Path.Value)
-		name := filepath.Base(p)
-		if im.Name != nil {
-			name = im.Name.Name
+	run("c12-fold", func() {
+		path := filepath.Join(repo, rel, "tracehandler.go")
+		src, err := os.ReadFile(path)
+		if err != nil {
+			die("%v", err)
 		}
-		used := regexp.MustCompile(`(^|[^\w.])` + regexp.QuoteMeta(name) + `\.\w`).MatchString(body)
-		if used {
+		x = &file{src: src, fset: token.NewFileSet()}
+		x.f, err = parser.ParseFile(x.fset, path, src, parser.ParseComments)
+		if err != nil {
+			die("%v", err)
+		}
+		body := depFold(x) + "\n" + redFold(x)
+		// imports of the original file that the copied text refers to
+		var imps []string
+		for _, im := range x.f.Imports {
+			p, _ := strconv.Unquote(im.Path.Value)
+			name := filepath.Base(p)
 			if im.Name != nil {
-				imps = append(imps, fmt.Sprintf("\t%s %s", im.Name.Name, im.Path.Value))
-			} else {
-				imps = append(imps, "\t"+im.Path.Value)
+				name = im.Name.Name
+			}
+			used := regexp.MustCompile(`(^|[^\w.])` + regexp.QuoteMeta(name) + `\.\w`).MatchString(body)
+			if used {
+				if im.Name != nil {
+					imps = append(imps, fmt.Sprintf("\t%s %s", im.Name.Name, im.Path.Value))
+				} else {
+					imps = append(imps, "\t"+im.Path.Value)
+				}
 			}
 		}
-	}
-	var b strings.Builder
-	b.WriteString("//go:build verif\n\n// GENERATED by /verif/harness/cmd/overlaygen from " + rel + "/tracehandler.go — do not edit.\n\npackage handler\n\nimport (\n")
-	b.WriteString(strings.Join(imps, "\n"))
-	b.WriteString("\n)\n\n")
-	b.WriteString(body)
-	dir := filepath.Join(out, rel)
-	if err := os.MkdirAll(dir, 0o755); err != nil {
-		die("%v", err)
-	}
-	if err := os.WriteFile(filepath.Join(dir, "export_verif_c12.go"), []byte(b.String()), 0o644); err != nil {
-		die("%v", err)
-	}
-	genC12Page(x, out, rel) // property C12, end-to-end slice: page-size hook for the two paging loops (c12.go)
-	genC01(repo, out) // property C01 (c01.go)
-	genC05(repo, out) // property C05 (c05.go)
-	genC10R(repo, out) // property C10, recovery slice: one pass of the metrics WAL timer loops (c10r.go)
+		var b strings.Builder
+		b.WriteString("//go:build verif\n\n// GENERATED by /verif/harness/cmd/overlaygen from " + rel + "/tracehandler.go — do not edit.\n\npackage handler\n\nimport (\n")
+		b.WriteString(strings.Join(imps, "\n"))
+		b.WriteString("\n)\n\n")
+		b.WriteString(body)
+		dir := filepath.Join(out, rel)
+		if err := os.MkdirAll(dir, 0o755); err != nil {
+			die("%v", err)
+		}
+		if err := os.WriteFile(filepath.Join(dir, "export_verif_c12.go"), []byte(b.String()), 0o644); err != nil {
+			die("%v", err)
+		}
+	})
+	run("c12-page", func() {
+		if x == nil || x.f == nil {
+			die("tracehandler.go not parsed")
+		}
+		genC12Page(x, out, rel)
+	}) // property C12, end-to-end slice: page-size hook for the two paging loops (c12.go)
+	run("c01", func() { genC01(repo, out) })   // property C01 (c01.go)
+	run("c05", func() { genC05(repo, out) })   // property C05 (c05.go)
+	run("c10r", func() { genC10R(repo, out) }) // property C10, recovery slice: one pass of the metrics WAL timer loops (c10r.go)
 	// property C07: crash-point injection into the segment writer (crash.go)
-	genCrash(repo, out)
+	crashOK := run("crash", func() { genCrash(repo, out) })
 	// property C11: pause points before the rotation steps (c11.go). MUST run after genCrash: it instruments the
 	// copy of pkg/segment/writer/segstore.go that genCrash has produced (both hook sets live in one file).
-	genC11(repo, out)
+	if crashOK {
+		run("c11", func() { genC11(repo, out) })
+	} else {
+		failedGens = append(failedGens, "c11: skipped, needs the product of crash")
+	}
+	if len(failedGens) > 0 {
+		_ = os.MkdirAll(out, 0o755)
+		_ = os.WriteFile(filepath.Join(out, "FAILED.txt"), []byte(strings.Join(failedGens, "\n")+"\n"), 0o644)
+	}
 }
